@@ -180,14 +180,21 @@ def decls_model(classes, roots):
                     (f"{len(v)} " + " ".join(close(subst(x, m)) for x in v)).strip() for v in body))
     line = f"{len(rts)} " + " ".join(rts) + " | " + " | ".join(decls)
     names = [enc_name(t) for t in order]
-    return line, names
+    deps = {}
+    for t in order:
+        if t[0] == "id":
+            tps, (kind, body) = classes[t[1]]
+            m = dict(zip(tps, t[2]))
+            fl = body if kind == "struct" else [x for v in body for x in v]
+            deps[enc_name(t)] = set(enc_name(subst(x, m)) for x in fl)
+    return line, names, deps
 
 
 def layout_case(rng):
     classes, roots = gen_decls(rng)
     src = decls_source(classes, roots)
-    mline, names = decls_model(classes, roots)
-    return {"kind": "layout", "line": f"layout {hexs(src)} ## {mline}", "names": names, "source": src}
+    mline, names, deps = decls_model(classes, roots)
+    return {"kind": "layout", "line": f"layout {hexs(src)} ## {mline}", "names": names, "source": src, "deps": deps}
 
 
 def layout_compare(case, impl, model):
@@ -215,10 +222,24 @@ def layout_compare(case, impl, model):
     return None
 
 
-def layout_conflations(impl):
+def reaches(deps, a, b):
+    seen, todo = set(), [a]
+    while todo:
+        x = todo.pop()
+        if x == b:
+            return True
+        if x in seen:
+            continue
+        seen.add(x)
+        todo += list(deps.get(x, ()))
+    return False
+
+
+def layout_conflations(impl, deps=None):
     """Implementation-side oracle for K1 (no model): an enum with an Unboxed variant next to Int31
     variants, whose unboxed payload type can itself be a non-pointer (its own layout has an Int31 or
-    Unboxed variant), conflates two values."""
+    Unboxed variant), conflates two values. Returns (enum, payload, recursive) triples; `recursive`
+    (the payload type reaches the enum again, so it was in progress) is the signature of C01-F1."""
     if not impl.startswith("ok"):
         return []
     defs = dict(e.split("=", 1) for e in impl[3:].split(";") if e)
@@ -234,7 +255,7 @@ def layout_conflations(impl):
                 nonptr = tk is not None and tk.startswith("E:") and any(
                     x == "I" or x.startswith("U(") for x in tk[2:].split(","))
                 if nonptr and ("I" in vs or len(vs) > 1):
-                    bad.append((n, tgt))
+                    bad.append((n, tgt, deps is None or reaches(deps, tgt, n)))
     return bad
 
 
@@ -799,14 +820,16 @@ def check_protocol_cases(ctx, cases, label, stats):
         tie, oracle = None, None
         if c["kind"] == "layout":
             tie = layout_compare(c, a, m)
-            conf = layout_conflations(a)
+            conf = layout_conflations(a, c.get("deps"))
             if conf:
                 stats["layout_conflating"] += 1
                 f = next((x for x in ctx.open_findings if x["id"] == "C01-F1"), None)
-                if f:
+                other = [x for x in conf if not x[2]]
+                if f and not other:
                     ctx.known(f)
                 else:
-                    oracle = f"enum layout conflates values: {conf[:3]}"
+                    oracle = ("enum layout conflates two values (unboxed payload type may be a non-pointer): "
+                              + ", ".join(f"{e} unboxes {t}" for e, t, _ in (other or conf)[:3]))
             if "U(" in a:
                 stats["layout_unboxed"] += 1
         elif c["kind"] == "tailrec":
@@ -838,6 +861,12 @@ def check_protocol_cases(ctx, cases, label, stats):
         if kind in concrete or kind in seen:
             continue
         seen.add(kind)
+        if stats.get("search_rng") is not None:     # search for a concrete failing program end to end
+            before = len(ctx.violations)
+            srng = stats["search_rng"]
+            run_e2e(ctx, [e2e_case(srng.fork()) for _ in range(150)], f"search after broken {kind} tie", stats)
+            if any(not v[1] for v in ctx.violations[before:]):
+                continue
         ctx.violation(f"model/implementation disagreement on protocol {kind}: {tie}", payload, no_input=True)
 
 
@@ -850,7 +879,7 @@ PROBE_F2 = ("class Main {\n  function swap(a: int, b: int, n: int): int = if n =
 def run(ctx):
     res = common.proof_gate(ctx)
     rng = ctx.rng
-    stats = {"layout": 0, "tailrec": 0, "cpe": 0, "e2e": 0, "e2e_ok": 0, "known_hits": 0, "families": {},
+    stats = {"search_rng": None, "layout": 0, "tailrec": 0, "cpe": 0, "e2e": 0, "e2e_ok": 0, "known_hits": 0, "families": {},
              "layout_unboxed": 0, "layout_conflating": 0, "tailrec_rewritten": 0, "no_node": False}
     try:
         common.build_exec()
@@ -858,6 +887,8 @@ def run(ctx):
     except common.BuildError as e:
         have_exec = False
         ctx.violation("exec oracle build failed", {"broken": e.what, "log": e.log}, no_input=True)
+    if have_exec:
+        stats["search_rng"] = rng.fork()
     # corpus first
     cdir = os.path.join(common.VERIF, "corpus", PROP)
     for f in sorted(os.listdir(cdir)) if os.path.isdir(cdir) else []:
@@ -898,7 +929,7 @@ def run(ctx):
                 "e2e program whose wasm output matched",
         "samples": [cases[0]["line"][:300] if cases else "", cases[n_layout]["line"][:300] if len(cases) > n_layout else ""],
         "traces_validated_against_impl": stats["layout"] + stats["tailrec"] + stats["cpe"],
-        "histogram": stats,
+        "histogram": {k: v for k, v in stats.items() if k != "search_rng"},
         "pending": ["tailrec_equiv over the full MIR statement list (return-collector plumbing of try_rewrite…): only the "
                     "if-else-tree kernel is proved", "semantic theorem for constant-parameter elimination (only the decision "
                     "kernel is proved)", "lowerMatch_correct, Source.eval"]})
@@ -924,10 +955,12 @@ def replay(ctx, path):
         if rp.get("source"):
             print(rp["source"])
         return 1
-    if rp.get("source"):
+    src = rp.get("source") or rp.get("src")
+    if src:
+        expected = rp.get("expected") or rp.get("expect")
         common.build_exec()
-        r = common.exec_programs([{"sources": {"Main": rp["source"]}, "entry": "Main", "std": False, "ts": True, "timeout_ms": 10000}])[0]
-        print(rp["source"]); print("expected:", rp.get("expected")); print("wasm:", r.get("wasm")); print("ts:", r.get("ts"))
-        return 0 if (r.get("wasm", {}).get("lines") == rp.get("expected") and r["wasm"].get("end") == "ok") else 1
+        r = common.exec_programs([{"sources": {"Main": src}, "entry": "Main", "std": False, "ts": True, "timeout_ms": 10000}])[0]
+        print(src); print("expected:", expected, "/ ok"); print("wasm:", r.get("wasm")); print("ts:", r.get("ts"))
+        return 0 if (r.get("wasm", {}).get("lines") == expected and r["wasm"].get("end") == "ok") else 1
     print(json.dumps(data, indent=1)[:3000])
     return 1
